@@ -18,13 +18,21 @@ type IntFunc struct {
 	Param types.Object
 	// Consts are all integer constants compared with the parameter.
 	Consts map[int64]bool
+	// VarInit, if set, returns the initialiser expression of a package-level
+	// variable (for "if v, ok := table[param]; ok { return v }" over a map
+	// literal with constant keys and values).
+	VarInit func(types.Object) ast.Expr
+	env    map[types.Object]constant.Value
 }
 
-func NewIntFunc(decl *ast.FuncDecl, info *types.Info) (*IntFunc, error) {
+func NewIntFunc(decl *ast.FuncDecl, info *types.Info, varInit ...func(types.Object) ast.Expr) (*IntFunc, error) {
 	if decl.Body == nil || decl.Type.Params == nil || len(decl.Type.Params.List) != 1 || len(decl.Type.Params.List[0].Names) != 1 {
 		return nil, fmt.Errorf("not a one-parameter function")
 	}
-	f := &IntFunc{Decl: decl, Info: info, Consts: map[int64]bool{}}
+	f := &IntFunc{Decl: decl, Info: info, Consts: map[int64]bool{}, env: map[types.Object]constant.Value{}}
+	if len(varInit) > 0 {
+		f.VarInit = varInit[0]
+	}
 	f.Param = info.Defs[decl.Type.Params.List[0].Names[0]]
 	if f.Param == nil {
 		return nil, fmt.Errorf("parameter object not found")
@@ -33,6 +41,13 @@ func NewIntFunc(decl *ast.FuncDecl, info *types.Info) (*IntFunc, error) {
 	// a comparison with a constant.
 	var bad error
 	ast.Inspect(decl.Body, func(n ast.Node) bool {
+		if as, ok := n.(*ast.AssignStmt); ok && f.tableLookup(as) != nil {
+			// v, ok := table[param] over a constant map literal
+			for k := range f.tableLookup(as) {
+				f.Consts[k] = true
+			}
+			return false
+		}
 		switch x := n.(type) {
 		case *ast.AssignStmt, *ast.IncDecStmt, *ast.GoStmt, *ast.DeferStmt, *ast.ForStmt, *ast.RangeStmt, *ast.CallExpr:
 			if ce, ok := x.(*ast.CallExpr); ok {
@@ -125,7 +140,26 @@ func (f *IntFunc) stmt(s ast.Stmt, arg constant.Value) (retVal, error) {
 		return f.block(s.List, arg)
 	case *ast.IfStmt:
 		if s.Init != nil {
-			return retVal{}, fmt.Errorf("if with init")
+			as, ok := s.Init.(*ast.AssignStmt)
+			tbl := map[int64]constant.Value(nil)
+			if ok {
+				tbl = f.tableLookup(as)
+			}
+			if tbl == nil {
+				return retVal{}, fmt.Errorf("if with init")
+			}
+			k, _ := constant.Int64Val(arg)
+			v, hit := tbl[k]
+			if id, ok := as.Lhs[0].(*ast.Ident); ok && f.Info.Defs[id] != nil {
+				if hit {
+					f.env[f.Info.Defs[id]] = v
+				} else {
+					f.env[f.Info.Defs[id]] = constant.MakeInt64(0)
+				}
+			}
+			if id, ok := as.Lhs[1].(*ast.Ident); ok && f.Info.Defs[id] != nil {
+				f.env[f.Info.Defs[id]] = constant.MakeBool(hit)
+			}
 		}
 		c, err := f.expr(s.Cond, arg)
 		if err != nil {
@@ -194,6 +228,9 @@ func (f *IntFunc) expr(e ast.Expr, arg constant.Value) (constant.Value, error) {
 		if f.Info.Uses[e] == f.Param {
 			return arg, nil
 		}
+		if v, ok := f.env[f.Info.Uses[e]]; ok {
+			return v, nil
+		}
 		return nil, fmt.Errorf("non-constant identifier %s", e.Name)
 	case *ast.UnaryExpr:
 		if e.Op == token.NOT {
@@ -230,4 +267,48 @@ func (f *IntFunc) expr(e ast.Expr, arg constant.Value) (constant.Value, error) {
 		}
 	}
 	return nil, fmt.Errorf("unsupported expression %T", e)
+}
+
+// tableLookup: as is "v, ok := T[param]" with T a package-level map variable
+// initialised by a literal whose keys and values are integer constants; returns
+// the table (nil otherwise).
+func (f *IntFunc) tableLookup(as *ast.AssignStmt) map[int64]constant.Value {
+	if f.VarInit == nil || as.Tok != token.DEFINE || len(as.Lhs) != 2 || len(as.Rhs) != 1 {
+		return nil
+	}
+	ix, ok := as.Rhs[0].(*ast.IndexExpr)
+	if !ok {
+		return nil
+	}
+	id, ok := ix.X.(*ast.Ident)
+	pid, ok2 := ix.Index.(*ast.Ident)
+	if !ok || !ok2 || f.Info.Uses[pid] != f.Param {
+		return nil
+	}
+	obj := f.Info.Uses[id]
+	if v, isVar := obj.(*types.Var); !isVar || v.Parent() != v.Pkg().Scope() {
+		return nil
+	}
+	lit, ok := f.VarInit(obj).(*ast.CompositeLit)
+	if !ok {
+		return nil
+	}
+	out := map[int64]constant.Value{}
+	for _, el := range lit.Elts {
+		kv, ok := el.(*ast.KeyValueExpr)
+		if !ok {
+			return nil
+		}
+		ktv, ok1 := f.Info.Types[kv.Key]
+		vtv, ok2 := f.Info.Types[kv.Value]
+		if !ok1 || !ok2 || ktv.Value == nil || vtv.Value == nil {
+			return nil
+		}
+		k, okk := constant.Int64Val(ktv.Value)
+		if !okk {
+			return nil
+		}
+		out[k] = vtv.Value
+	}
+	return out
 }
